@@ -85,6 +85,8 @@ fn initial() -> Content {
     let mut c = Content::new();
     c.insert("x", (300, vec![1, 2]));
     c.insert("y", (300, vec![7]));
+    // a record below an empty non-terminal (b.example.com has no records of its own)
+    c.insert("a.b", (300, vec![9]));
     c.insert(SPECIALS, (0, vec![]));
     c
 }
